@@ -18,12 +18,21 @@ typedef int QXmppError;          /* QXmppError { description, error } -> RK_ERRO
 enum { RK_NONE = 0, RK_ACKED = 1 /* SendSuccess{true} */, RK_SENT = 2 /* SendSuccess{false} */, RK_ERROR = 3 /* QXmppError */ };
 typedef struct WireBytes { int kind; unsigned id; unsigned h; } WireBytes;
 enum { WB_NONE = 0, WB_PACKET = 1 /* data() of packet <id> */, WB_REQ = 2 /* <r xmlns=urn:xmpp:sm:3/> */, WB_ACK = 3 /* <a h=<h>/> */,
-       WB_RESUME = 4 /* <resume h=<h> previd=<id (a string id)>/> */ };
+       WB_RESUME = 4 /* <resume h=<h> previd=<id (a string id)>/> */,
+       WB_RAW_STANZA = 5 /* serializeXml(<object of a stanza class>) that is not the data() of a packet given to the ack manager */ };
 typedef unsigned vpromise_id;    /* QXmppPromise<void> of a pending resume/enable request (C07/C13 are about it) */
 typedef unsigned vtask_id;       /* QXmppTask<void> */
 typedef int sm_request;          /* std::variant<NoRequest, ResumeRequest, EnableRequest> m_request: its index */
 typedef int ResumeRequest;
 enum { SMREQ_NONE = 0, SMREQ_RESUME = 1, SMREQ_ENABLE = 2 };
+typedef struct OutgoingIqManager { int opaque; } OutgoingIqManager;
+typedef struct QXmppStreamFeatures { int opaque; } QXmppStreamFeatures;
+typedef struct StreamErrorElement { int opaque; } StreamErrorElement;
+typedef struct StreamErrVariant { int index; StreamErrorElement alt0; } StreamErrVariant;
+typedef struct StanzaError { int type; int cond; } StanzaError;
+typedef struct QXmppIq { int type; int id; int to; bool has_err; StanzaError err; } QXmppIq;      /* id / to are opaque string ids */
+typedef struct QXmppPresence { int opaque; } QXmppPresence;
+typedef struct QXmppMessage { int opaque; } QXmppMessage;
 typedef struct XmppSocket { char unused; } XmppSocket;
 typedef struct SmRequest { char unused; } SmRequest;
 typedef struct SendTuple { bool f0; task_id f1; } SendTuple;    /* std::tuple<bool, QXmppTask<SendResult>> */
